@@ -204,11 +204,17 @@ Definition deliver (s : mst) (t : nat) : mst :=
         end
     end.
 
-(** the monitor's loop body: signal every thread that has an overdue node *)
+(** the monitor's loop body: signal every thread that has an overdue node. The monitor thread
+    iterates the set without synchronisation: with the two-step operations, a scan while some
+    thread's operation is in flight races with it (defect flag; the scan itself sees the old set) *)
+Definition in_flight (s : mst) : bool :=
+  negb (m_atomic s) && existsb (fun k => match t_mid k with Some _ => true | None => false end) (m_thr s).
+
 Definition scan (s : mst) : mst :=
-  fold_left (fun s1 n => if fst n <=? m_clock s1
-                         then upd_thr s1 (snd n) (t_with_pending (get_thr s1 (snd n)) true) else s1)
-            (m_nodes s) s.
+  let s1 := fold_left (fun s1 n => if fst n <=? m_clock s1
+                                   then upd_thr s1 (snd n) (t_with_pending (get_thr s1 (snd n)) true) else s1)
+                      (m_nodes s) s in
+  if in_flight s then with_nodes s1 (m_nodes s1) true else s1.
 
 Definition mstep (s : mst) (a : act) : mst :=
   match a with
